@@ -7,7 +7,8 @@
    ([sign_correct], checked by the harness on every signature it records), 32-byte hashes and a 20-byte own address. *)
 From Coq Require Import List ZArith Bool Lia.
 From Coq Require Import Strings.Byte.
-From WH Require Import lib.Bytes gen.Extracted model.Vaa model.Processor model.ProcSpec proofs.VaaProofs proofs.ProcC01Proofs proofs.ProcC02Proofs.
+From WH Require Import lib.Bytes gen.Extracted model.Vaa model.Processor model.ProcSpec model.System proofs.VaaProofs proofs.ProcC01Proofs proofs.ProcC02Proofs
+     proofs.SystemProofs proofs.SystemLiveProofs.
 Import ListNotations.
 Open Scope Z_scope.
 
@@ -125,6 +126,141 @@ Proof.
   - vm_compute. discriminate.
 Qed.
 
+(* ================================================================== liveness, one node, over a window of its history ==============
+   [happens f P st ops]: somewhere along the run from st over ops, P holds of the state and the op handled in it.
+   [ev_msg m]: the node handles the chain message m and signs it (an observation goes out); [ev_obs h a]: an observation of digest h
+   carrying a valid signature of a arrives by gossip.  Window = a stretch of the node's history without guardian-set change and
+   without cleanup tick ([calm]), starting in a reachable state in which G is in force and nothing is known about the message.
+   Then: if the node observed m, observations of >= quorum pairwise distinct members of G (its own counted) arrived in the window —
+   in any order, duplicated, interleaved with any other traffic — and its own signature has looped back, the entry is published. *)
+Theorem C02_window_liveness :
+  forall recover keccak sign own gov_chain gov_addr,
+    (forall b, length (keccak b) = 32%nat) -> length own = 20%nat ->
+    (forall d, length d = 32%nat -> rec recover d (sign d) = Some own) ->
+  forall G h, In own (keys G) ->
+  forall ops0 ops (signers : list addr) m,
+    Forall op_wf ops0 -> Forall op_wf ops -> forallb calm ops = true ->
+    let stp := fun st o => fst (step recover keccak sign own gov_chain gov_addr st o) in
+    let st0 := fst (run recover keccak sign own gov_chain gov_addr init ops0) in
+    let st := fst (run recover keccak sign own gov_chain gov_addr st0 ops) in
+    cur st0 = Some G -> alookup h (agg st0) = None -> gs_wf G ->
+    dg keccak (vaa_of_message 0 m) = h ->
+    happens stp (ev_msg recover keccak sign own gov_chain gov_addr m) st0 ops ->
+    NoDup signers -> incl signers (keys G) -> go_quorum (Z.of_nat (length (keys G))) <= Z.of_nat (length signers) ->
+    (forall a, In a signers -> a <> own -> happens stp (ev_obs recover h a) st0 ops) ->
+    (forall o, In o (loopq st) -> o_hash o <> h) ->
+    exists e, alookup h (agg st) = Some e /\ our_vaa e <> None /\ gs_snap e = Some G /\ submitted e = true.
+Proof. exact window_liveness. Qed.
+
+(* "submitted" is not only a flag: an entry that is submitted at the end of a history that started without it (or with it pending)
+   was broadcast — a SignedVAAWithQuorum went out — in one of the history's steps *)
+Theorem C02_submitted_means_broadcast_in_an_earlier_step :
+  forall recover keccak sign own gov_chain gov_addr h e' ops O L st,
+    Inv1 recover keccak O L st -> KeysND st -> Forall op_wf ops -> fresh h st ->
+    alookup h (agg (fst (run recover keccak sign own gov_chain gov_addr st ops))) = Some e' -> submitted e' = true ->
+    happens (fun st o => fst (step recover keccak sign own gov_chain gov_addr st o))
+            (fun st o => bcast_for recover keccak sign own gov_chain gov_addr h st o = true) st ops.
+Proof. exact submitted_was_broadcast. Qed.
+
+(* ================================================================== network-level liveness (model/System.v) =======================
+   N nodes, adversarial network.  After ANY pre-history xs0, over ANY continuation xs in which node i gets no set change and no
+   cleanup tick: if G is in force at node i and i knows nothing about m yet; S is a set of >= quorum HONEST members of G (their
+   signers are consistent with recovery) that contains i; i observes m ([ev_observes]); for every other j in S, j's observation of
+   m — which is on the wire only if j observed m — is delivered to i at some point ([ev_delivered]: fair delivery; any order, any
+   duplication, any interleaving with adversarial items and with everything else the network does); and i's own signature has looped
+   back — then i's entry for m is published ... *)
+Theorem C02_network_liveness :
+  forall recover keccak gov_chain gov_addr owns signs, (forall b, length (keccak b) = 32%nat) ->
+  forall N xs0 xs i G m (S : list nat), (i < N)%nat -> Forall nop_wf xs0 -> Forall nop_wf xs ->
+    let stp := fun n x => fst (nstep recover keccak gov_chain gov_addr owns signs n x) in
+    let n0 := fst (nrun recover keccak gov_chain gov_addr owns signs (ninit N) xs0) in
+    let n1 := fst (nrun recover keccak gov_chain gov_addr owns signs n0 xs) in
+    let h := dg keccak (vaa_of_message 0 m) in
+    (forall st0, nth_error (nodes n0) i = Some st0 -> cur st0 = Some G /\ alookup h (agg st0) = None) -> gs_wf G ->
+    (forall x, In x xs -> target x = i -> calm_nop x = true) ->
+    NoDup (map owns S) -> (forall j, In j S -> honest_member recover owns signs G j) ->
+    go_quorum (Z.of_nat (length (keys G))) <= Z.of_nat (length S) -> In i S ->
+    happens stp (ev_observes recover keccak gov_chain gov_addr owns signs i m) n0 xs ->
+    (forall j, In j S -> j <> i -> happens stp (ev_delivered owns signs i j h) n0 xs) ->
+    (forall st, nth_error (nodes n1) i = Some st -> forall o, In o (loopq st) -> o_hash o <> h) ->
+    exists st e, nth_error (nodes n1) i = Some st /\ alookup h (agg st) = Some e /\
+                 our_vaa e <> None /\ gs_snap e = Some G /\ submitted e = true.
+Proof. exact net_liveness. Qed.
+
+(* ... and there is a step of the network, inside the window, at which node i puts the SignedVAAWithQuorum on the wire (by C01's
+   network theorem it is a valid quorum VAA of G built from i's own observation of m) *)
+Theorem C02_network_liveness_publishes :
+  forall recover keccak gov_chain gov_addr owns signs, (forall b, length (keccak b) = 32%nat) ->
+  forall N xs0 xs i G m (S : list nat), (i < N)%nat -> Forall nop_wf xs0 -> Forall nop_wf xs ->
+    let stp := fun n x => fst (nstep recover keccak gov_chain gov_addr owns signs n x) in
+    let n0 := fst (nrun recover keccak gov_chain gov_addr owns signs (ninit N) xs0) in
+    let n1 := fst (nrun recover keccak gov_chain gov_addr owns signs n0 xs) in
+    let h := dg keccak (vaa_of_message 0 m) in
+    (forall st0, nth_error (nodes n0) i = Some st0 -> cur st0 = Some G /\ alookup h (agg st0) = None) -> gs_wf G ->
+    (forall x, In x xs -> target x = i -> calm_nop x = true) ->
+    NoDup (map owns S) -> (forall j, In j S -> honest_member recover owns signs G j) ->
+    go_quorum (Z.of_nat (length (keys G))) <= Z.of_nat (length S) -> In i S ->
+    happens stp (ev_observes recover keccak gov_chain gov_addr owns signs i m) n0 xs ->
+    (forall j, In j S -> j <> i -> happens stp (ev_delivered owns signs i j h) n0 xs) ->
+    (forall st, nth_error (nodes n1) i = Some st -> forall o, In o (loopq st) -> o_hash o <> h) ->
+    happens stp (ev_publishes recover keccak gov_chain gov_addr owns signs i h) n0 xs.
+Proof. exact net_liveness_publishes. Qed.
+
+Theorem C02_network_publish_event_is_a_broadcast :
+  forall recover keccak gov_chain gov_addr owns signs i h n x, ev_publishes recover keccak gov_chain gov_addr owns signs i h n x ->
+  existsb is_bcast (snd (nstep recover keccak gov_chain gov_addr owns signs n x)) = true.
+Proof. exact ev_publishes_output. Qed.
+
+(* what an honest observer puts on the wire when it signs a chain message: its observation of the message's digest (the item the
+   fair-delivery premise speaks about) *)
+Theorem C02_observer_emits_its_observation :
+  forall keccak gov_chain gov_addr sign own st m,
+  existsb is_sendobs (snd (handle_message keccak sign own gov_chain gov_addr st m)) = true ->
+  In (SendObs {| o_addr := own; o_hash := dg keccak (vaa_of_message 0 m); o_sig := sign (dg keccak (vaa_of_message 0 m)); o_tx := m_tx m |})
+     (snd (handle_message keccak sign own gov_chain gov_addr st m)).
+Proof. exact observer_emits. Qed.
+
+(* non-vacuity of the network statement: two guardians (toy oracles), set {0, 1} (quorum 2); after both learned the set, node 1 and
+   node 0 observe the message, an adversarial item and node 1's observation reach node 0, node 0's own signature loops back *)
+Definition nx_owns (i : nat) : addr := repeat (byte_of_Z (Z.of_nat i + 1)) 20.
+Definition nx_signs (i : nat) (d : bytes) : bytes := nx_owns i ++ repeat x00 45.
+Definition nx_G : gset := {| keys := [nx_owns 0; nx_owns 1]; gidx := 3 |}.
+Definition nx_pre : list nop := [NEnv 0 (ESetGS nx_G); NEnv 1 (ESetGS nx_G)].
+Definition nx_win : list nop := [NEnv 1 (EMsg ex_msg); NEnv 0 (EMsg ex_msg); NAdv 0 (GVaa [x00]); NDeliver 0 0; NLoop 0 0].
+Example C02_network_liveness_premises_satisfiable :
+  let stp := fun n x => fst (nstep ex_recover ex_keccak 1 (repeat x00 32) nx_owns nx_signs n x) in
+  let n0 := fst (nrun ex_recover ex_keccak 1 (repeat x00 32) nx_owns nx_signs (ninit 2) nx_pre) in
+  let n1 := fst (nrun ex_recover ex_keccak 1 (repeat x00 32) nx_owns nx_signs n0 nx_win) in
+  let h := dg ex_keccak (vaa_of_message 0 ex_msg) in
+  Forall nop_wf nx_pre /\ Forall nop_wf nx_win /\
+  (forall st0, nth_error (nodes n0) 0 = Some st0 -> cur st0 = Some nx_G /\ alookup h (agg st0) = None) /\ gs_wf nx_G /\
+  (forall x, In x nx_win -> target x = 0%nat -> calm_nop x = true) /\
+  NoDup (map nx_owns [0; 1]%nat) /\ (forall j, In j [0; 1]%nat -> honest_member ex_recover nx_owns nx_signs nx_G j) /\
+  go_quorum (Z.of_nat (length (keys nx_G))) <= Z.of_nat (length [0; 1]%nat) /\
+  happens stp (ev_observes ex_recover ex_keccak 1 (repeat x00 32) nx_owns nx_signs 0 ex_msg) n0 nx_win /\
+  happens stp (ev_delivered nx_owns nx_signs 0 1 h) n0 nx_win /\
+  (forall st, nth_error (nodes n1) 0 = Some st -> forall o, In o (loopq st) -> o_hash o <> h) /\
+  (* ... and the conclusion, computed *)
+  (exists st e, nth_error (nodes n1) 0 = Some st /\ alookup h (agg st) = Some e /\ submitted e = true).
+Proof.
+  assert (Hwf : gs_wf nx_G).
+  { split; [|cbn; lia]. constructor; [intros [H|[]]; discriminate H|constructor; [intros []|constructor]]. }
+  cbv zeta. repeat apply conj.
+  - constructor; [exact Hwf|constructor; [exact Hwf|constructor]].
+  - repeat (constructor; [exact I|]). constructor.
+  - intros st0 H. vm_compute in H. inversion H; subst st0. split; reflexivity.
+  - exact (proj1 Hwf).
+  - exact (proj2 Hwf).
+  - intros x Hx _. repeat (destruct Hx as [<-|Hx]; [reflexivity|]). destruct Hx.
+  - constructor; [intros [H|[]]; discriminate H|constructor; [intros []|constructor]].
+  - intros j [<-|[<-|[]]]; (split; [cbn; tauto|split; [reflexivity|]]); intros d Hd; unfold Processor.rec, recover_checked; rewrite Hd; reflexivity.
+  - vm_compute. discriminate.
+  - cbn [happens nx_win]. right. left. split; [reflexivity|vm_compute; reflexivity].
+  - cbn [happens nx_win]. right. right. right. left. exists 0%nat, [x07]. split; [reflexivity|vm_compute; reflexivity].
+  - intros st H. vm_compute in H. inversion H; subst st. intros o [].
+  - eexists. eexists. split; [vm_compute; reflexivity|]. split; vm_compute; reflexivity.
+Qed.
+
 Print Assumptions C02_quorum_delivered_implies_published.
 Print Assumptions C02_order_independent_publication.
 Print Assumptions C02_accepted_observation_is_recorded.
@@ -135,3 +271,9 @@ Print Assumptions C02_invariants_reachable.
 Print Assumptions C02_published_body_is_own_observation.
 Print Assumptions C02_reobservation_same_digest.
 Print Assumptions C02_governance_emitter_never_signed.
+Print Assumptions C02_window_liveness.
+Print Assumptions C02_submitted_means_broadcast_in_an_earlier_step.
+Print Assumptions C02_network_liveness.
+Print Assumptions C02_network_liveness_publishes.
+Print Assumptions C02_network_publish_event_is_a_broadcast.
+Print Assumptions C02_observer_emits_its_observation.
